@@ -1,15 +1,15 @@
 SPECIFICATION Spec
 CONSTANTS
-  MaxOps = 2
+  MaxOps = 3
   SplitPairs = FALSE
   RenameTwice = FALSE
-  NonRecDirs = TRUE
+  NonRecDirs = FALSE
   NonRecCross = FALSE
   B2B = TRUE
   WithRoot = TRUE
-  InodeReuse = FALSE
-  StickyCreated = FALSE
-  ViewSkipInCreatedRemoved = FALSE
-  RecModes = {FALSE}
+  InodeReuse = TRUE
+  StickyCreated = TRUE
+  ViewSkipInCreatedRemoved = TRUE
+  RecModes = {TRUE}
 INVARIANT Xlat_ReplicaMatches
 CHECK_DEADLOCK FALSE
